@@ -23,6 +23,11 @@ const PARAMETERS: &[Parameter] = &[
 
 fn unflatten(value: Value, separator: &Value, recursive: Value) -> Resolved {
     let separator = separator.try_bytes_utf8_lossy()?.into_owned();
+    // every key "contains" the empty separator at position 0: splitting on it never makes
+    // progress and recurses until the stack overflows.
+    if separator.is_empty() {
+        return Err("separator must not be empty".into());
+    }
     let recursive = recursive.try_boolean()?;
     let map = value.try_object()?;
     Ok(do_unflatten(map.into(), &separator, recursive))
